@@ -73,7 +73,9 @@ def run(ck):
                 for p in returning(paths, inst):
                     if not shape_err_verdict(ck, "C15.R1", inst, paths):
                         continue
-                    f = lambda a, b: T.app("einsum2", spec, a, b)  # noqa: E731
+                    from ..ops_ext import einsum_as_matmul
+
+                    f = lambda a, b: einsum_as_matmul(spec, [a, b]) or T.app("einsum2", spec, a, b)  # noqa: E731
                     re, im = bil(f)
                     v = p.value
                     if rp and ip:
